@@ -115,3 +115,81 @@ pub fn lines_cfg_emit(cx: &mut Ctx, text: &str, cfgbits: u64, batch: usize, deli
         Err(p) => cx.sum.fail("LineProcessor_configs", None, cj, &format!("panicked: {}", p)),
     }
 }
+
+static N_UTF8: AtomicUsize = AtomicUsize::new(0);
+fn coq_oc(o: Option<char>) -> String { match o { Some(c) => format!("(Some {})", c as u32), None => "None".into() } }
+
+/// unicode.rs: validate_utf8_and_count_chars, Utf8ToUtf32Iterator::new and an operation history on one iterator
+/// (all the way forward and one step more, all the way back and one step more, reset, then a mix read off the text)
+pub fn utf8_emit(cx: &mut Ctx, text: &[u8]) {
+    use zipora::string::{utf8_byte_count, validate_utf8_and_count_chars, Utf8ToUtf32Iterator};
+    let k = N_UTF8.load(AO::Relaxed);
+    if !room(&N_UTF8, 300) { return; }
+    let cj = json!({"cell": "unicode", "text": text});
+    if k == 0 {
+        let l: Vec<String> = (0..=255u8).map(|b| utf8_byte_count(b).to_string()).collect();
+        cx.shards.push(format!("(XByteCount [{}])%N", l.join("; ")), json!({"cell": "unicode", "text": []}));
+    }
+    let r = guarded(|| {
+        let count = validate_utf8_and_count_chars(text).ok();
+        let mut ops: Vec<u8> = vec![];
+        let mut obs = String::from("[");
+        if let Ok(mut it) = Utf8ToUtf32Iterator::new(text) {
+            let n = std::str::from_utf8(text).map(|s| s.chars().count()).unwrap_or(0);
+            ops.extend(std::iter::repeat(0).take(n + 1));
+            ops.extend(std::iter::repeat(1).take(n + 1));
+            ops.push(2);
+            for (i, &c) in text.iter().take(24).enumerate() { ops.push(match (c as usize + i) % 7 { 0 | 1 | 2 => 0, 3 | 4 => 1, 5 => 0, _ => 2 }); }
+            ops.extend([0, 0, 1, 1, 1, 0]);
+            for (i, op) in ops.iter().enumerate() {
+                let ret = match op { 0 => it.next_char(), 1 => it.prev_char(), _ => { it.reset(); None } };
+                if i > 0 { obs.push_str("; "); }
+                obs.push_str(&format!("({}, {}, {})", coq_oc(ret), coq_oc(it.current()), it.byte_position()));
+            }
+        }
+        obs.push(']');
+        let opl: Vec<String> = ops.iter().map(|o| o.to_string()).collect();
+        format!("(XUtf8 {} {} [{}] {})%N", more::coq_bl(text), coq_on(count), opl.join("; "), obs)
+    });
+    match r {
+        Ok(term) => cx.shards.push(term, cj),
+        Err(p) => cx.sum.fail("unicode", None, cj, &format!("panicked: {}", p)),
+    }
+}
+
+static N_STREAM: AtomicUsize = AtomicUsize::new(0);
+/// StreamingLexIterator over `text`: a history of next() mixed with the refused operations, then next() to the end and twice more
+pub fn stream_emit(cx: &mut Ctx, cj: Value, text: &[u8], nlines: usize, mix: u64) {
+    use zipora::string::StreamingLexIterator;
+    if !room(&N_STREAM, 220) { return; }
+    let r = guarded(|| {
+        let mut it = StreamingLexIterator::new(std::io::Cursor::new(text.to_vec()));
+        let mut ops: Vec<u8> = vec![];
+        let mut m = mix;
+        for _ in 0..nlines.min(6) { ops.push(if m % 3 == 0 { 1 + (m / 3 % 4) as u8 } else { 0 }); m /= 5; }
+        ops.extend(std::iter::repeat(0).take(nlines + 2));
+        ops.push(1 + (mix % 4) as u8);
+        ops.push(0);
+        let mut obs = String::from("[");
+        for (i, op) in ops.iter().enumerate() {
+            let ans = match op {
+                0 => it.next(),
+                1 => it.prev(),
+                2 => it.seek_start(),
+                3 => it.seek_end(),
+                _ => it.seek_lower_bound("a"),
+            };
+            let code = match ans { Ok(false) => 0, Ok(true) => 1, Err(_) => 2 };
+            let cur: Option<Vec<u8>> = it.current().map(|s| s.as_bytes().to_vec());
+            if i > 0 { obs.push_str("; "); }
+            obs.push_str(&format!("({}, {}, {})", code, coq_obl(&cur), b(it.is_at_end())));
+        }
+        obs.push(']');
+        let opl: Vec<String> = ops.iter().map(|o| o.to_string()).collect();
+        format!("(XStream {} [{}] {})%N", more::coq_bl(text), opl.join("; "), obs)
+    });
+    match r {
+        Ok(term) => cx.shards.push(term, cj),
+        Err(p) => cx.sum.fail("StreamingLexIterator", None, cj, &format!("panicked: {}", p)),
+    }
+}
